@@ -35,7 +35,10 @@ class G:
         return "$" + self.hexnum()
 
     def hexnum(self):
-        v = self.pick([0, 1, 2, 8, 0x10, 0x18, 0x1c, 0xff, 0x100, 0x1000, self.int(0, 0xffff), self.int(0, 2**32)])
+        # small values whose last hex digits are also letters/digits of register names (a-e, 8-15) are frequent in real
+        # code (0x1b(%rbp), 0x18(%r8)) and are where text-level operand rewriting goes wrong
+        v = self.pick([0, 1, 2, 8, 0x10, 0x18, 0x1c, 0xff, 0x100, 0x1000, self.int(0, 0xffff), self.int(0, 2**32),
+                       self.int(0, 0xff), self.int(0, 0xff), 0x1b, 0x2a, 0xd, 0xc, 0x3e, 0x115])
         return hex(v)
 
     def disp(self):
